@@ -109,6 +109,32 @@ theorem build_naive_spec (res : Res) (dflt naive : DT) (h : buildNaive res dflt 
           · simp only [hdd, if_false] at h ⊢
             injection h with h; exact h.symm
 
+/-- moving a valid datetime forward by `k ≥ 0` days moves its weekday by `k` (mod 7): together with
+    `build_naive_spec` (`(base.weekday + k) % 7 = wd`), the result of a bare weekday IS on that weekday -/
+theorem shift_lands_on_weekday (base naive : DT) (k : Int) (hv : base.Valid) (hk : 0 ≤ k)
+    (h : base.addDays k = .ok naive) : naive.weekday = (base.weekday + k) % 7 := by
+  unfold DT.addDays DT.addMicros at h
+  dsimp only at h
+  split at h
+  · cases h
+  · rename_i hrange
+    injection h with h
+    have hb := DT.timeMicros_range base hv
+    have hord : 1 ≤ base.ordinal := Cal.toOrdinal_pos base.y base.m base.d hv.1.1 hv.1.2.2
+    have hx1 : DT.minMicros ≤ base.toMicros + k * DT.usPerDay := by omega
+    have hx2 : base.toMicros + k * DT.usPerDay ≤ DT.maxMicros := by omega
+    have hnv := DT.ofMicros_valid _ hx1 hx2
+    have hn := DT.timeMicros_range _ hnv
+    have hge : DT.usPerDay ≤ base.toMicros + k * DT.usPerDay := by
+      unfold DT.minMicros at hx1; omega
+    have hto := DT.toMicros_ofMicros _ hge
+    rw [h] at hnv hn hto
+    have hordn : naive.ordinal = base.ordinal + k := by
+      unfold DT.toMicros DT.usPerDay at *
+      omega
+    unfold DT.weekday
+    rw [hordn, Cal.weekdayOfOrd_add]
+
 /-! ### the zone cascade, row by row, in priority order -/
 
 /-- row 1: a callable `tzinfos`, or a mapping that has the name, decides — whatever else the text said -/
